@@ -44,6 +44,27 @@ func TestVerifBoundedC10(t *testing.T) {
 			}
 			mc.Put(append([]byte{byte(storage.STStorage)}, k...), []byte{1})
 		}
+		// the same content put as one batch into another trie: same root (the trie is canonical:
+		// the root is a function of the content, not of how it was inserted), and every key reads
+		// back - twice, in two different orders - from that same in-memory trie
+		bm := map[string][]byte{}
+		for _, k := range keys {
+			bm["\x70"+string(k)] = []byte{1}
+		}
+		tb := NewTrie(nil, ModeAll, storage.NewMemCachedStore(storage.NewMemoryStore()))
+		if _, err := tb.PutBatch(MapToMPTBatch(bm)); err != nil {
+			t.Fatalf("FAILING-INPUT keys=%x: PutBatch: %v", keys, err)
+		}
+		if tb.StateRoot() != tr.StateRoot() {
+			t.Fatalf("FAILING-INPUT keys=%x: root after one batch %s differs from the root after single puts %s", keys, tb.StateRoot().StringBE(), tr.StateRoot().StringBE())
+		}
+		for pass := 0; pass < 2; pass++ {
+			for _, i := range r.Perm(len(keys)) {
+				if v, err := tb.Get(keys[i]); err != nil || len(v) != 1 || v[0] != 1 {
+					t.Fatalf("FAILING-INPUT keys=%x: Get(%x) on the batch-built trie (pass %d) = %x, %v", keys, keys[i], pass, v, err)
+				}
+			}
+		}
 		tr.Flush(0)
 		if _, err := mc.Persist(); err != nil {
 			t.Fatal(err)
